@@ -113,6 +113,7 @@ def hidden_component(rel, arg):
 
 
 def run_case(sh, root, args, opts, r, gitignored=None, label="args"):
+    args = ["./" + a if a.startswith("-") else a for a in args]     # a name, not an option
     run = cliobs.run_cli(["--no-colors"] + opts + args, cwd=root, timeout=120)
     sh.case(label + "\0" + "\0".join(args) + "\0" + "\0".join(sorted(os.listdir(root))) + repr(gitignored))
     sh.count("c15.selection_equals_walk")
